@@ -148,19 +148,20 @@ pub(crate) fn build_migration_block(
         }
 
         quote! {
-            if __version < #version {
-                // Validate migration id against database if version already tracked
-                if let Some(db_id) = __version_ids.get(&#version) {
-                    let expected_id: &str = #migration_id;
-                    if !expected_id.is_empty() && !db_id.is_empty() && db_id != expected_id {
-                        return Err(::vespertide::MigrationError::IdMismatch {
-                            version: #version,
-                            expected: expected_id.to_string(),
-                            found: db_id.clone(),
-                        });
-                    }
+            // Validate migration id against database if version already tracked
+            // (outside the version guard: a recorded version is never newer than __version)
+            if let Some(db_id) = __version_ids.get(&#version) {
+                let expected_id: &str = #migration_id;
+                if !expected_id.is_empty() && !db_id.is_empty() && db_id != expected_id {
+                    return Err(::vespertide::MigrationError::IdMismatch {
+                        version: #version,
+                        expected: expected_id.to_string(),
+                        found: db_id.clone(),
+                    });
                 }
+            }
 
+            if __version < #version {
                 eprintln!("[vespertide] Applying migration {} ({})", #version_str, #comment_str);
                 #(#action_blocks)*
 
@@ -192,19 +193,20 @@ pub(crate) fn build_migration_block(
         }
 
         quote! {
-            if __version < #version {
-                // Validate migration id against database if version already tracked
-                if let Some(db_id) = __version_ids.get(&#version) {
-                    let expected_id: &str = #migration_id;
-                    if !expected_id.is_empty() && !db_id.is_empty() && db_id != expected_id {
-                        return Err(::vespertide::MigrationError::IdMismatch {
-                            version: #version,
-                            expected: expected_id.to_string(),
-                            found: db_id.clone(),
-                        });
-                    }
+            // Validate migration id against database if version already tracked
+            // (outside the version guard: a recorded version is never newer than __version)
+            if let Some(db_id) = __version_ids.get(&#version) {
+                let expected_id: &str = #migration_id;
+                if !expected_id.is_empty() && !db_id.is_empty() && db_id != expected_id {
+                    return Err(::vespertide::MigrationError::IdMismatch {
+                        version: #version,
+                        expected: expected_id.to_string(),
+                        found: db_id.clone(),
+                    });
                 }
+            }
 
+            if __version < #version {
                 let sqls: &[&str] = match backend {
                     sea_orm::DatabaseBackend::Postgres => &[#(#pg_sqls),*],
                     sea_orm::DatabaseBackend::MySql => &[#(#mysql_sqls),*],
